@@ -194,3 +194,24 @@ Section Total.
   Qed.
 
 End Total.
+
+(* ---------- C01: the alias recursion without a visited set (cited from Properties/C01.v) ---------- *)
+(* { A -> alias B ; B -> alias A }: GetAllArrayType / GetAllTableType / GetAllTableKeyType never return,
+   whatever the stack size (fuel = number of alias jumps).  Confirmed on the server: fatal stack overflow. *)
+Definition cyc_tm : tmap :=
+  [ mkDef 0 10 0 1 (DAlias (TMulti [TName 11])); mkDef 1 11 0 3 (DAlias (TMulti [TName 10])) ].
+
+Lemma alias_cycle_never_returns leaf : forall fuel,
+  resolve leaf cyc_tm fuel (TMulti [TName 10]) 0 = OutOfFuel /\
+  resolve leaf cyc_tm fuel (TMulti [TName 11]) 0 = OutOfFuel.
+Proof.
+  induction fuel as [|k [A B]]; [split; reflexivity|]. split.
+  - change (resolve leaf cyc_tm (S k) (TMulti [TName 10]) 0)
+      with (rbind (resolve leaf cyc_tm k (TMulti [TName 11]) 0)
+                  (fun a => match a with Some e => Ok (Some e) | None => Ok None end)).
+    rewrite B. reflexivity.
+  - change (resolve leaf cyc_tm (S k) (TMulti [TName 11]) 0)
+      with (rbind (resolve leaf cyc_tm k (TMulti [TName 10]) 0)
+                  (fun a => match a with Some e => Ok (Some e) | None => Ok None end)).
+    rewrite A. reflexivity.
+Qed.
